@@ -31,6 +31,8 @@ func (e *Env) declBytesFuncs() {
 	// afrom(c, n, x): the [N]byte value x after copy(x[:], s) with content(s) = c, len(s) = n
 	e.sess.Cmd("(declare-fun |afrom!| (Int Int Int) Int)")
 	e.sess.Cmd("(assert (forall ((a Int) (x Int)) (! (= (|afrom!| (|abytes!| a) 32 x) a) :pattern ((|afrom!| (|abytes!| a) 32 x)))))")
+	// copying nothing leaves the array as it was
+	e.sess.Cmd("(assert (forall ((c Int) (x Int)) (! (= (|afrom!| c 0 x) x) :pattern ((|afrom!| c 0 x)))))")
 }
 
 // contentTerm is the content id of a byte slice in a state.
